@@ -387,10 +387,10 @@ pub assume_specification[ <FineDuration as core::default::Default>::default ]() 
         subst.append((pin(text), rep.replace("\\", "\\\\"), 1))
     subst.append((pin("sample_duration_sub_overhead(raw_sample)"),
                   "sample_duration_sub_overhead(raw_sample, bench_overheads, sample_size, timer_precision)", 1))
-    subst.append((pin("for raw_sample in raw_samples"), "for raw_sample in it: raw_samples", 1))
+    subst.append((pin("for raw_sample in raw_samples"), "for raw_sample in it: raw_samples", "first"))
     loop_sec = code_fn(b, f_loop, "BenchContext::bench_loop_threaded", pair=["verif_loop::whole_loop_small"],
                        sig_subst=[(r"fn bench_loop_threaded<I, O>\(.*\)$", "fn bench_loop_threaded(&mut self)", 1)],
-                       loops={0: loop_invariant[0], 2: loop_invariant[1]},
+                       loops={0: loop_invariant[0], 2: loop_invariant[1]}, loop_ends={0: loop_invariant[2]},
                        inserts=inserts, subst=subst,
                        clauses=loop_clauses)
     loop_sec.text = "#[verifier::exec_allows_no_decreases_clause]\n" + loop_sec.text
@@ -552,7 +552,7 @@ pub closed spec fn link(h: Hist, cx: BenchContext, cx0: BenchContext, mode: Benc
 LOOP_CLAUSES = r"""
     requires
         1 <= old(self).thread_count.get() <= 0xffff_ffff,
-        old(self).samples.time_samples@.len() == 0,
+        old(self).samples.time_samples@.len() == 0 && old(self).samples.sample_size == 0,
         !(initial_mode_of(old(self).shared_context.action, *old(self).options) is Tune), //#NOTUNE
         initial_mode_of(old(self).shared_context.action, *old(self).options) is Tune, //#ISTUNE
 """
@@ -573,6 +573,9 @@ OUTER_INV = r"""
         !is_test ==> link(h, *self, cx0, current_mode, mode0, rem_samples, elapsed_picos, calls, t),
         is_test ==> h.rounds == 0 && calls == 0 && self.samples.time_samples@.len() == 0 && rem_samples is None && elapsed_picos == 0,
         is_test ==> self.did_run,
+        // only when the code publishes the sample size on mode changes instead of at the top of
+        // every round (detected from the text, see build_loop_file)
+        self.samples.sample_size == mode_size(current_mode), //#PROTOB
         forall|r: int| 0 <= r < h.rounds && !skip ==> exists|e: Timestamp| #[trigger] h.end[r] == dur(initial_start->Some_0, e, timer), //#EL
     ensures
         // test mode: exactly one round of one call per thread, nothing stored
@@ -590,7 +593,7 @@ INNER_INV = r"""
         self.samples.time_samples@.len() == rec_before + it.index@,
         rem_samples == (match rem_b { None => None::<u32>, Some(v) => Some(sat_sub(v as int, it.index@) as u32) }), //#REM
         (rem_samples is None) == (rem_b is None),
-        self.samples.sample_size == sample_size,
+        self.samples.sample_size == ss_before,
         self.options == cx0.options && self.thread_count == cx0.thread_count && self.shared_context == cx0.shared_context && self.did_run,
 """
 
@@ -627,6 +630,7 @@ BEFORE_FOR = r"""
 let ghost rec_before: int = self.samples.time_samples@.len() as int;
 let ghost rem_b: Option<u32> = rem_samples;
 let ghost mode_after = current_mode;
+let ghost ss_before: u32 = self.samples.sample_size;
 let ghost mut g_last_end: Timestamp = arbitrary();
 proof { assert(sat_sub(0, 0) == 0); }
 """
@@ -747,7 +751,7 @@ pub proof fn lemma_round(h: Hist, h2: Hist, t: int, n: int, skip: bool, min: int
         tune0, //#ISTUNE
         hist_inv(h, t, n, skip, min, max, prec, tune0),
         cont(h.el[h.rounds], h.rem[h.rounds], min, max), //#CONT
-        h.el[h.rounds] < max, //#MAXT
+        h.first == -1 ==> h.el[h.rounds] < max, //#MAXT
         h2 == (Hist { rounds: h.rounds + 1, el: h.el.push(el_new), rem: h.rem.push(rem_new), size: h.size.push(sz),
                       slow: h.slow.push(slow), end: h.end.push(end_d), first: if switched { h.rounds } else { h.first } }),
         el_new == next_elapsed(skip, h.el[h.rounds], slow, end_d), //#EL
@@ -941,18 +945,22 @@ def loop_inserts(enabled):
         """, 1),
         (r"for raw_sample in it: raw_samples", "before", f(BEFORE_FOR), 1),
         (pin("let last_end = latest_end_of(raw_samples);"), "after", "proof { g_last_end = last_end; }", 1),
-        (pin("elapsed_picos = elapsed_picos.saturating_add(progress_picos); }"), "after", f(END_OF_BODY), 1),
         (r"ignore_alloc_reset\(\);", "before", f(FINAL), 1),
     ]
 
 
 def build_loop_file(S: Sources, enabled: set, verify: set, canary=None):
     """The Verus file for one of C03 / C04 / C19 (`enabled` selects the conjuncts)."""
+    # Two ways of publishing the per-round sample size are followed by the proof: (A) stored at
+    # the top of every round (the current code), (B) stored before the loop and on mode changes.
+    body = S(BENCH).find_fn("bench_loop_threaded", impl=r"impl<'a> BenchContext<'a>").body_text()
+    if not re.search(pin("let sample_size = current_mode.sample_size(); self.samples.sample_size = sample_size;"), body):
+        enabled = set(enabled) | {"PROTOB"}
     f = lambda t: sel(t, enabled)
     ins = loop_inserts(enabled)
     if canary is not None:
         ins = ins + [(canary[1], canary[2], canary[3], 1)]
-    return loop_sections(S, [f(OUTER_INV), f(INNER_INV)], ins, f(SPEC) + f(LINK), f(LEMMAS), f(LOOP_CLAUSES), verify)
+    return loop_sections(S, [f(OUTER_INV), f(INNER_INV), f(END_OF_BODY)], ins, f(SPEC) + f(LINK), f(LEMMAS), f(LOOP_CLAUSES), verify)
 
 
 def loop_files(S: Sources, prefix: str, enabled: set, tune: bool, errs: list):
@@ -1046,7 +1054,7 @@ mod verif_loop_mode {
         }
         assert!(m.sample_size() == match m { BenchMode::Test => 1, BenchMode::Tune { sample_size } | BenchMode::Collect { sample_size } => sample_size });
         // a fresh context has no samples and has not run (precondition of the loop contract)
-        assert!(cx.samples.time_samples.is_empty() && !cx.did_run);
+        assert!(cx.samples.time_samples.is_empty() && cx.samples.sample_size == 0 && !cx.did_run);
         kani::cover!(matches!(m, BenchMode::Tune { .. }));
     }
 }
@@ -1071,7 +1079,7 @@ LOOP_ASSUMPTIONS = [
     "ASSUMED BenchOptions::min_time()/max_time() return the options in picoseconds (checked by Kani verif_loop_opts::time_accessors)",
     "push_input_counts, CounterCollection::clear_input_counts, TimedOverhead::total_overhead, ThreadAllocTallyMap::is_empty, ignore_alloc_reset: opaque, no contract used",
     "termination of the loop is NOT proved (#[verifier::exec_allows_no_decreases_clause]); partial correctness only",
-    "precondition: the BenchContext is fresh (no recorded samples) and thread_count fits in u32",
+    "precondition: the BenchContext is fresh (no recorded samples, sample_size field 0; checked for BenchContext::new by Kani verif_loop_mode::initial_mode) and thread_count fits in u32",
     "generic parameters <I, O> and the three closure parameters are dropped from the signature (unused once sample_recorder is replaced)",
 ]
 LOOP_UNDECIDED = [
